@@ -22,3 +22,33 @@ Print Assumptions C01_lex_total.
 Example C01_lex_nonvacuous :
   exists ts, lex dev_none (b "{ a(x: ""q"") }") = Some (ts, None) /\ length ts = 8%nat.
 Proof. eexists. split; [vm_compute; reflexivity|reflexivity]. Qed.
+
+(* ---- the two parsers ---- *)
+From GQL.model Require Import Ast Parser Prog ParseQuery ParseSchema.
+From GQL.proofs Require Import ParserTotal ParseSchemaTotal.
+
+(* The model's parsers recurse on fuel 2|input|+8 and return the distinguished outcome PStall when it
+   runs out.  It never does: for every byte string, every token limit and every setting of the
+   deviation flags, parsing an executable document ends with a document, a located syntax error or
+   the token-limit error.  (Every loop round and every recursive descent consumes at least one
+   token; a peeked non-EOF token counts one, so the measure is bytes left + 1.) *)
+Theorem C01_parseQuery_never_stalls : forall d limit input, parseQuery d limit input <> PErr PStall.
+Proof. exact parseQuery_never_stalls. Qed.
+Print Assumptions C01_parseQuery_never_stalls.
+
+(* The same for a type-system document from any source, and for a list of sources. *)
+Theorem C01_parseSchema_never_stalls : forall d limit srcix builtin input,
+  parseSchema d limit srcix builtin input <> PErr PStall.
+Proof. exact parseSchema_never_stalls. Qed.
+Print Assumptions C01_parseSchema_never_stalls.
+
+Theorem C01_parseSchemas_never_stalls : forall d limit srcs, parseSchemas d limit srcs <> PErr PStall.
+Proof. exact parseSchemas_never_stalls. Qed.
+Print Assumptions C01_parseSchemas_never_stalls.
+
+Example C01_parse_nonvacuous :
+  (exists doc, parseQuery dev_none 0 (b "{ a(x: [1, {k: $v}]) @d ... on T { b } }") = POk doc)
+  /\ parseQuery dev_none 0 (b "{ a(x: [1, {k: $v}") = PErr (PSyntax 1 19)
+  /\ parseQuery dev_none 3 (b "{ a b c }") = PErr PLimit
+  /\ (exists doc, parseSchema dev_none 0 0 false (b "type T implements I & J @d { f(a: [Int!] = [1]): T! } extend schema @x") = POk doc).
+Proof. vm_compute. repeat split; eexists; reflexivity. Qed.
